@@ -52,8 +52,11 @@ func (s Desc) JSON() vt.Ev {
 	return vt.Ev{"stype": s.Stype, "hdrId": s.HdrID, "recs": recs}
 }
 
-func (s Desc) Build() entities.Set {
-	set := entities.NewSet(false)
+func (s Desc) Build() entities.Set { return s.BuildInto(entities.NewSet(false)) }
+
+// BuildInto fills the given set object (a fresh one, or one the application recycles: it is reset first)
+func (s Desc) BuildInto(set entities.Set) entities.Set {
+	set.ResetSet()
 	switch s.Stype {
 	case "template":
 		set.PrepareSet(entities.Template, uint16(s.HdrID))
